@@ -333,7 +333,20 @@ def run(ctx, explain=False):
     ctx.model_check("mc/MC_CrystalObject.tla",
                     MC_CFG % ("spec", ctx.pick(5, 6), qset(CORE[:4] + ["to_cif_string"]), "FALSE", "TRUE", ""),
                     name="MC_CrystalObject(spec)", timeout=1500)
+    # unbounded histories: Apalache discharges the inductive invariant "no memo is stale" for the specified design
+    from harness import apalache
+    obligations = [("CInit", "Init", "IndInv", 0), ("CInit", "IndInit", "IndInv", 1), ("CInit", "IndInit", "Fresh", 0)]
+    done = 0
+    for cinit, init, inv, length in obligations:
+        outcome, wall, tail = apalache.check("CrystalObjectInd.tla", cinit, init, inv, length)
+        if outcome != "ok":
+            raise tlc.TLCFailure("Apalache obligation %s/%s/%s length %d: %s\n%s" % (cinit, init, inv, length, outcome, tail))
+        done += 1
+    ctx.notes["apalache_inductive_obligations"] = {"discharged": done, "of": len(obligations),
+                                                   "module": "specs/apalache/CrystalObjectInd.tla"}
     if explain:
+        outcome, wall, tail = apalache.check("CrystalObjectInd.tla", "CInitAsBuilt", "IndInit", "IndInv", 1)
+        print("Apalache on the as-built design (memo kept across a switch): inductive step is", outcome)
         res = tlc.run("mc/MC_CrystalObject.tla", MC_CFG % ("asbuilt", 3, qset(["unit_cell_atoms", "to_cif_string"]), "FALSE", "TRUE", ""),
                       timeout=300)
         print("as-built design (no invalidation on switch): violated", res.violated)
